@@ -94,6 +94,7 @@ static void splice(vf::Tape& t, std::vector<uint8_t>& x, const std::vector<uint8
         len = std::min(len, x.size() - at);
         memcpy(&x[at], &dc[from], len);
     }
+    if (t.chance(25)) gen::continue_dict_tail(t, dc, x);
 }
 
 void vf_case(vf::Ctx& c) {
